@@ -37,6 +37,8 @@ def one(d):
     res = {"id": sid}
     try:
         sh(f"git -C /repo worktree add --detach {wt} HEAD")
+        if os.path.exists(os.path.join(d, "base")):
+            sh(f"git apply {os.path.join(V, open(os.path.join(d, 'base')).read().strip())}", cwd=wt)
         rc, out = sh(f"git apply {d}/patch.diff", cwd=wt)
         res["patch_applies"] = rc == 0
         if rc != 0:
